@@ -177,6 +177,19 @@ sc = {"modules": [[{"id": 0, "objs": S.pair(krc["id"], krc) + S.pair(k2_["id"], 
 run("revoke-tag-carry", sc, {"tag": krc["tag"]})
 P.save()
 
+# several HSMs: the public object of the KSK is on an earlier HSM than its private object (which carries no public attributes); another pair sits
+# in front of each so that the object handles of the two HSMs differ. The signature is made where the private key is.
+for alg in (13, 14, 8):
+    for hh in (None, True):
+        k1, k2, k3 = ksk_for(alg, idx=0), ksk_for(alg, idx=1), ksk_for(alg, idx=2)
+        zq = [zsk_for(alg, idx=j) for j in range(2)]
+        rq = skrgen.honest_request(f"two-hsms-{alg}-{hh}", NOW, 2, [[zq[0]], [zq[0], zq[1]]], ksrxml.default_zsk_policy(), sign=True)
+        mods = [[{"id": 0, "objs": [S.obj(k1["id"], "pub", k1)] + S.pair(k2["id"], k2)}],
+                [{"id": 0, "objs": S.pair(k3["id"], k3) + S.pair(k2["id"] + "-copy", k2) + [S.obj(k1["id"], "priv", k1, pub_attrs=False)]}]]
+        sc = {"modules": mods, "ksks": {"k1": ceremony.ksk_def(k1, hash_using_hsm=hh), "k2": ceremony.ksk_def(k2, hash_using_hsm=hh)},
+              "schema": {1: {"publish": ["k1"], "sign": ["k1"], "revoke": []}, 2: {"publish": ["k1", "k2"], "sign": ["k1", "k2"], "revoke": []}}, "request": rq,
+              "strict": alg != 8}
+        run("public-and-private-object-on-different-hsms", sc, {"alg": alg, "hash_using_hsm": hh})
 ok_build, log = vlib.make(["Checks/SignCheck.vo"])
 runner = vlib.CaseRun("C01", "main", "From KV Require Import Base.Prelude Base.Exn Model.Data Model.KsrPolicy Model.Token Model.Sign Checks.SignCheck.", "case", "check", shard=5)
 results = runner.run(cases) if ok_build else [-1] * len(cases)
